@@ -7,8 +7,8 @@ Certified per sampled instance (Frobenius norms, squared comparisons, exact inte
      (mpmath does not normalise eigenvectors - ER has a unit diagonal entry per column before the back
       transformation - so the residual is measured relative to the vector's own norm.)
  eig_sort (f = "real" | "imag" | "abs" | a callable): the same residuals after sorting (pairing preserved),
-     the keys in exact non-decreasing order ("abs": |E_i|^2 <= |E_{i+1}|^2 (1 + 2^(2-p)), the order of the
-     rounded moduli), and E a permutation of the unsorted list (raw tuples, Python).
+     the keys in exact non-decreasing order ("abs": |E_i|^2 <= |E_{i+1}|^2 (1 + 2^(3-p)), i.e. the order of the
+     correctly rounded moduli that eig_sort compares), and E a permutation of the unsorted list (raw tuples, Python).
  schur:       ||Q R Q^H - A||_F <= ||A||_F tol,  ||Q^H Q - I||_F <= tol,  R upper triangular (exact zeros)
  hessenberg:  ||Q H Q^H - A||_F <= ||A||_F tol,  ||Q^H Q - I||_F <= tol,  H upper Hessenberg (exact zeros)
  eigsy / eighe / eigh:  ||A Q - Q diag(E)||_F <= ||A||_F tol, ||Q^H Q - I||_F <= tol, E real (mpf) and ascending
@@ -177,7 +177,7 @@ def eig_case(c, idx, A, p, kind, cplx):
         elif f == "neg_real":
             checks.append(("eig_sort_neg_real_order", Kind("KAsc", Scal(-1, 0, 0, Re(V(si))))))
         else:
-            slack = Const((1 << p) + 4, p)
+            slack = Const((1 << p) + 8, p)
             for i in range(n - 1):
                 env.append(smat([[Es[i]]])); a = len(env) - 1
                 env.append(smat([[Es[i + 1]]])); b = len(env) - 1
@@ -192,7 +192,8 @@ def unitary_case(c, idx, A, p, kind, cplx, fn):
     base = {"prec": p, "n": n, "family": kind, "complex": cplx, "A": qprops.raw(A), "fn": fn}
     r_, exc = call(c, fn, lambda: getattr(mp, fn)(A), A)
     if exc is not None:
-        r = dict(base); r.update({"kind": "raises", "exception": repr(exc)})
+        noconv = isinstance(exc, RuntimeError) and "failed to converge" in str(exc)
+        r = dict(base); r.update({"kind": "raises_noconvergence" if noconv else "raises", "exception": repr(exc)})
         c.pyviol("%s raised %r on a %dx%d %s matrix at prec %d" % (fn, exc, n, n, kind, p), r); return
     Qm, R = r_
     env = [smat(A), smat(Qm), smat(R)]
